@@ -626,7 +626,7 @@ LEVEL_NOTE = ("Trusted: Coq kernel; extraction (ExtrOcamlBasic) and ocaml/driver
               "(the shadow table maps a routed source to its own flow's socket or to nothing, never to another flow's); that "
               "the entry is present (delivery) and the new-flow path through in_flight_flow are compared with the model on "
               "every e2e scenario, not proved. Not covered: SCM hand-off of a UDP listener with live flows; WouldBlock on "
-              "real sockets (the write queue is driven in-process through the cfg(sozu_verif) hook 0407268 and in the "
+              "real sockets (the write queue is driven in-process through the cfg(sozu_verif) hook 34a352f and in the "
               "model with scripted send outcomes).")
 TECHNIQUE = "Rocq/Coq proof over an executable Gallina model + differential correspondence (extracted OCaml vs real crate)"
 CLAIMED = True
